@@ -46,7 +46,7 @@ theorem insertAll_ok (xs : List α) : ∀ (t : T α), IsRB t → (inorder t).Pai
 
 include total trans in
 theorem mergeTree_ok (dst : T α) (dl : List α) (src : T α) (sl : List α)
-    (hd : IsRB dst) (hdl : (dst = T.nil ∧ dl.length = 1) ∨ inorder dst = dl)
+    (hd : IsRB dst) (hdl : dst = T.nil ∨ inorder dst = dl)
     (hds : dl.Pairwise (fun a b => gt a b = false))
     (hs : IsRB src) (hsl : src = T.nil ∨ inorder src = sl) (hss : sl.Pairwise (fun a b => gt a b = false)) :
     IsRB (mergeTree gt dst dl src sl) ∧
@@ -55,20 +55,8 @@ theorem mergeTree_ok (dst : T α) (dl : List α) (src : T α) (sl : List α)
   cases src with
   | nil =>
     -- lyds_merge_nodes1
-    have hbase : IsRB (Lyds.base dst dl.head?) ∧ inorder (Lyds.base dst dl.head?) = dl := by
-      rcases hdl with ⟨hnil, h1⟩ | hin
-      · match dl, h1 with
-        | [o], _ => rw [hnil]; exact ⟨⟨⟨trivial, trivial, rfl⟩, ⟨trivial, trivial, by simp⟩, rfl⟩, rfl⟩
-      · cases dst with
-        | nil =>
-          have : dl = [] := by simpa [inorder] using hin.symm
-          subst this
-          exact ⟨isRB_nil, rfl⟩
-        | node c a d b =>
-          have : Lyds.base (T.node c a d b) dl.head? = T.node c a d b := by
-            unfold Lyds.base; split <;> simp_all
-          rw [this]; exact ⟨hd, hin⟩
-    have hm : mergeTree gt dst dl T.nil sl = sl.foldl (fun t x => Rb.insert gt x t) (Lyds.base dst dl.head?) := by
+    have hbase := base_ok gt trans dst dl hd hdl hds
+    have hm : mergeTree gt dst dl T.nil sl = sl.foldl (fun t x => Rb.insert gt x t) (Lyds.base gt dst dl) := by
       cases dst <;> rfl
     rw [hm]
     obtain ⟨g1, g2, g3⟩ := insertAll_ok gt total trans sl _ hbase.1 (by rw [hbase.2]; exact hds)
@@ -88,7 +76,7 @@ theorem mergeTree_ok (dst : T α) (dl : List α) (src : T α) (sl : List α)
     | node c l d r =>
       -- lyds_merge_nodes3
       have hind : inorder (T.node c l d r) = dl := by
-        rcases hdl with ⟨h, _⟩ | h
+        rcases hdl with h | h
         · cases h
         · exact h
       have hm : mergeTree gt (T.node c l d r) dl (T.node c' l' d' r') sl =
